@@ -17,8 +17,8 @@ claimed = {
   text="Bounded symbolic execution of the real snippet.T / Sprintf / Comment / GoDirective / Snippets / Fragments (with the real text/scanner interpreted) against an independent reference renderer executed next to it: equality of panic behaviour and of output bytes for every ASCII format up to the bound (quick: 5 bytes; thorough: 7 bytes), with nil, literal, placeholder-looking and nested-template bindings.",
   note="Domain restrictions (bare @, nil interface arguments, non-Snippet Sprintf arguments, NUL/BOM/invalid UTF-8) are listed in the evidence under outside_bounds.", ref="DESIGN.md §3 C09"),
  "C12": dict(
-  text="(a) Tag half: bounded symbolic execution of the real ExtractCommentTags / splitKV / commentLinesFrom against a reference line classifier for every list of k lines x n ASCII bytes within the bound (every line classified exactly once, order kept, key/value split at the first '=' or space, repeated keys keep all values in order; go: lines skipped). (b) Attribution, partial: the real newPkg comment indexing and Doc/Comment run on a struct type with k <= 3 (thorough 4) fields in every combination of no doc / attached doc / detached comment and trailing / no trailing comment per field: Doc is exactly the group directly above, Comment exactly the trailing comment, and a previous line's trailing comment is never reported as documentation.",
-  note="PARTIAL: under the engine the AST is harness-built following go/parser's comment-attachment rules (the parser itself cannot run symbolically); every sampled path is replayed natively on the really parsed source, which validates that construction. Layouts other than struct fields + the type's own doc (const/var groups, grouped type specs, imports, block comments) are not exercised.", ref="DESIGN.md §3 C12"),
+  text="(a) Tag half: bounded symbolic execution of the real ExtractCommentTags / splitKV / commentLinesFrom against a reference line classifier for every list of k lines x n ASCII bytes within the bound (every line classified exactly once, order kept, key/value split at the first '=' or space, repeated keys keep all values in order; go: lines skipped). (b) Attribution, partial: the real newPkg comment indexing and Doc/Comment run on a struct type with k <= 3 (thorough 4) fields, on const and type groups and on ungrouped variable declarations, in every combination of no doc / attached doc / detached comment and trailing / no trailing comment per field: Doc is exactly the group directly above, Comment exactly the trailing comment, and a previous line's trailing comment is never reported as documentation.",
+  note="PARTIAL: under the engine the AST is harness-built following go/parser's comment-attachment rules (the parser itself cannot run symbolically); every sampled path is replayed natively on the really parsed source, which validates that construction. Layouts with import specs, block or multi-line comments, multi-name specs or several files are not exercised.", ref="DESIGN.md §3 C12"),
  "C14": dict(
   text="Narrow: the recursion guard visits.visited, on which the termination claim rests, is checked as a lemma by bounded symbolic execution from every pre-state reachable by <= 3 (thorough 4) earlier guard calls with symbolic indexes: a (function, result) pair asked about is cut the next time, a fresh pair is not.",
   note="PARTIAL: everything in C14 that analyses go/ast + go/types of real programs (soundness of alternatives, literal returns, closures, determinism) is outside; boundedness of the recursion given a marking guard is a paper argument.", ref="DESIGN.md §3 C14"),
